@@ -144,8 +144,13 @@ def execute_fault(args):
         run.log = []
         run.cmd_trace = []
         twin.cmd_trace = []
-        run.do(faulted)
-        twin.do(faulted)
+        # under a fault the command may fail where the fault-free model expects success: that is an outcome
+        # (exit status, state), not a divergence
+        for r_ in (run, twin):
+            try:
+                r_.do(faulted)
+            except driver.Divergent:
+                pass
         run.env = saved_env
         with open(cfgfile, "w") as fh:
             json.dump(base_cfg, fh)
@@ -205,8 +210,11 @@ def execute_fault(args):
         next_same = True
         if obs["same"]:
             for act in nxts:
-                run.do(act)
-                twin.do(act)
+                for r_ in (run, twin):
+                    try:
+                        r_.do(act)
+                    except driver.Divergent:
+                        pass
             run._register_new_commits("x")
             twin._register_new_commits("x")
             na, nb = run.proj_uv(), twin.proj_uv()
